@@ -20,7 +20,8 @@ Errors (`zeroCrossingsE`): `tol < 0` → `raise NotImplemented(..)` is a `TypeEr
 empty `values` → `IndexError` (`values[0]` in stage 3).  `zeroCrossings` is the pure pipeline on the
 domain `v ≠ []`, `tol ≥ 0` (all theorems are stated under `v ≠ []`).
 
-## `get_switched_peak_array_indices(values, tol)`  →  `switchedPeaks`, `switchedPeaksE`
+## `get_switched_peak_array_indices(values, tol)`  →  `switchedPeaks`, `switchedPeaksE`  (the loop; the function's final
+`return np.unique(switched_peak_indices)` — repair of finding F12-3 — is `switchedPeaksOut`, `switchedPeaksOutE` of `Model/SwitchedOut.lean`)
 The running-set loop over `peaks v` as the recursive `groupsAux`/`groups` (seed `id` = the fixed code
 `peak_values_set = [peak_values[0]]`; `fun _ => 0` would be the unfixed placeholder).  Groups hold
 `(position in the peak arrays, peak value)` exactly as `peak_indices_set` / `peak_values_set`;
@@ -134,13 +135,13 @@ def peakPosItems (v : List Rat) (pk : List Nat) : List (Nat × Rat) :=
 def newPeakPositions (v : List Rat) (tol : Rat) : List Nat :=
   (groups tol id (peakPosItems v (Peaks.peaks v))).map report
 
-/-- `get_switched_peak_array_indices(values, tol)` on its domain (`v ≠ []`):
-`np.take(peak_indices, new_peak_indices)` -/
+/-- the local `switched_peak_indices` of `get_switched_peak_array_indices(values, tol)` on its domain (`v ≠ []`):
+`np.take(peak_indices, new_peak_indices)` (the function returns `np.unique` of it: `Model/SwitchedOut.lean`) -/
 def switchedPeaks (v : List Rat) (tol : Rat) : List Nat :=
   let pk := Peaks.peaks v
   (newPeakPositions v tol).map (fun k => pk.getD k 0)
 
-/-- `get_switched_peak_array_indices` with its error branch -/
+/-- the loop of `get_switched_peak_array_indices` with its error branch (the function itself: `switchedPeaksOutE`) -/
 def switchedPeaksE (v : List Rat) (tol : Rat) : Except Wire.ErrKind (List Nat) :=
   if v.isEmpty then .error .IndexError       -- `values[0]` in `clean_out_non_changing`
   else .ok (switchedPeaks v tol)
